@@ -116,7 +116,38 @@ func c03ScenarioOpt(r *rand.Rand, conflicts bool, c11 bool) (*txWorld, string, e
 				}
 			}
 			w.pumpTxs()
+			if r.Intn(3) == 0 {
+				// the bodies of one or two transactions (in this block or not) arrive from the
+				// trusted peer while the block is being processed
+				var cand []*txInfo
+				for _, t := range pool {
+					if !confirmed[t] {
+						cand = append(cand, t)
+					}
+				}
+				for k := 0; k < 1+r.Intn(2) && len(cand) > 0; k++ {
+					t := cand[r.Intn(len(cand))]
+					w.midBlock = append(w.midBlock, t)
+					inThis := false
+					for _, q := range in {
+						if q == t {
+							inThis = true
+						}
+					}
+					if !inThis {
+						unconf[t] = true
+					}
+				}
+				w.midBlockAt = r.Intn(4)
+				fp += "M"
+			}
 			w.mine(in, r.Intn(2) == 0)
+			if len(w.midBlock) > 0 { // no block was processed (cannot happen with a mined block)
+				for _, t := range w.midBlock {
+					w.arrive(t, "trusted-bare", true)
+				}
+				w.midBlock = nil
+			}
 			for _, t := range in {
 				confirmed[t] = true
 				delete(unconf, t)
